@@ -36,7 +36,7 @@ type SimStorage struct {
 	// reads differently (a zero-copy view of a recycled request buffer). The
 	// storage itself always keeps private copies, so its own behaviour stays
 	// deterministic either way.
-	KeyOracle   string
+	KeyOracle string
 	// ValOracle, likewise, for the values handed to Set: a storage is free to keep the slice it was given
 	// (the in-tree memory storage does), so it must not be a view of a buffer that is written again
 	ValOracle   string
